@@ -17,6 +17,7 @@ from .exceptions import RangeUnsatisfiable
 
 
 image_map_pattern = re.compile('^[0-9]+,[0-9]+$')
+byte_range_pattern = re.compile(r'\s*([0-9]*)-([0-9]*)\s*')
 
 
 def is_unix_socket(path):
@@ -100,9 +101,15 @@ def get_ranges(headervalue, content_length):
         return None
 
     result = []
-    _bytesunit, byteranges = headervalue.split('=', 1)
+    bytesunit, _, byteranges = headervalue.partition('=')
+    if bytesunit.strip().lower() != 'bytes':
+        return None
     for brange in byteranges.split(','):
-        start, stop = (x.strip() for x in brange.split('-', 1))
+        match = byte_range_pattern.fullmatch(brange)
+        if match is None:
+            # Syntactically invalid, see rfc quote below.
+            return None
+        start, stop = match.groups()
         if start:
             if not stop:
                 stop = content_length - 1
@@ -125,6 +132,7 @@ def get_ranges(headervalue, content_length):
                 # did not exist. (Normally, this means return a 200
                 # response containing the full entity)."
                 return None
+            stop = min(stop, content_length - 1)
             # Prevent duplicate ranges. See Issue #59
             if (start, stop + 1) not in result:
                 result.append((start, stop + 1))
@@ -132,10 +140,13 @@ def get_ranges(headervalue, content_length):
             if not stop:
                 # See rfc quote above.
                 return None
+            if int(stop) == 0 or content_length == 0:
+                continue
             # Negative subscript (last N bytes)
+            start = max(content_length - int(stop), 0)
             # Prevent duplicate ranges. See Issue #59
-            if (content_length - int(stop), content_length) not in result:
-                result.append((content_length - int(stop), content_length))
+            if (start, content_length) not in result:
+                result.append((start, content_length))
 
     # Can we satisfy the requested Range?
     # If we have an exceedingly high standard deviation
